@@ -84,7 +84,7 @@ def run(ck):
     names = gen.SMALL + ["re3", "fcc"] + ([] if ck.quick else ["bcc", "hcp", "diamond", "tet", "ortho", "hcp-nonideal"])
     n = 0; exact_cases = []
     # crystals with a non-empty site vector basis first (origin-state terms of Lij: L1vv = 0 and Lsv = -L0vv must hold in every component)
-    forced = [(nm,) + gen.named(nm) for nm in (["rect-polar2d", "oblique2d", "tria-disp"] if ck.quick else ["rect-polar2d", "oblique2d", "tria-disp", "polar3w2d", "pg4", "polar"])]
+    forced = [(nm,) + gen.named(nm) for nm in (["rect-polar2d", "sq2w", "oblique2d", "tria-disp"] if ck.quick else ["sq2w", "re3", "rect-polar2d", "oblique2d", "tria-disp", "polar3w2d", "pg4", "polar"])]
     for label, crys, chem in forced + list(gen.pool(rng, ck.n(8, 36), names=names, random_frac=0.3, nchem_max=2, maxatoms=2)):
         try:
             net = gen.percolating_network(crys, chem, rng, maxshell=2, maxjumps=40)
@@ -151,6 +151,28 @@ def run(ck):
                 thB.update(d.maketracerpreene(**thB))
                 d.Lij(*d.preene2betafree(kT0, **thB))
                 again = [np.array(x) for x in d.Lij(*d.preene2betafree(kT0, **th0))]
+                # (K) right after A: vacancy site energies shifted per Wyckoff set with every transition state following the mean of
+                # its end states (kinetically-resolved barriers): all SYMMETRIC rates equal those of A, site probabilities and escape
+                # rates do not.  The tracer identities must hold for K with K's own bare coefficient.
+                if len(sl) > 1:
+                    dE = np.array([rng.uniform(-.8, .8) for _ in sl])
+                    thK = dict(preV=th0["preV"].copy(), eneV=th0["eneV"] + dE, preT0=th0["preT0"].copy(),
+                               eneT0=np.array([e + 0.5 * (dE[d.invmap[jl[0][0][0]]] + dE[d.invmap[jl[0][0][1]]]) for jl, e in zip(jn, th0["eneT0"])]))
+                    thK.update(d.maketracerpreene(**thK))
+                    d.clearcache(); d.Lij(*d.preene2betafree(kT0, **th0))     # the Green-function calculator was last set up for A
+                    LK = [np.array(x) for x in d.Lij(*d.preene2betafree(kT0, **thK))]
+                    wK = np.array([thK["preV"][d.invmap[i]] * np.exp(-thK["eneV"][d.invmap[i]] / kT0) for i in range(d.N)])
+                    rK = [[pT * np.exp(-eT / kT0) / wK[i] for (i, j), dx in jl] for jl, pT, eT in zip(jn, thK["preT0"], thK["eneT0"])]
+                    DK = gen.exact_unitcell_D(d.N, jn, wK / wK.sum(), rK, crys.dim)
+                    scK = np.abs(DK).max()
+                    eK = max(np.abs(LK[0] - DK).max(), np.abs(LK[2] + LK[0]).max() / 1e4 * 1e0 if False else 0.0) / scK
+                    e1K = np.abs(LK[2] + LK[0]).max() / scK; e2K = np.abs(LK[3]).max() / scK
+                    ck.case(key=("kra", label, round(cut, 5), Nth), nontrivial=True, kind="same-symmetric-rates-other-site-energies")
+                    if eK > 1e-8 or e1K > 1e-4 or e2K > 1e-4:
+                        ck.violation("after data A, data with the same symmetric rates but other vacancy site energies: L0vv differs from the exact bare "
+                                     "diffusivity by %.3g, Lsv+L0vv %.3g, L1vv %.3g (relative)" % (eK, e1K, e2K),
+                                     dict(doc0, thermo_K={k: np.asarray(v).tolist() for k, v in thK.items()}, L_K=[x.tolist() for x in LK], exact_bare_K=DK.tolist()),
+                                     key="c06-same-symmetric-rates-history")
             except Exception as e:
                 ck.violation("Lij raised %r on re-evaluation" % e, doc0, key="c06-raise"); again = None
             if again is not None:
